@@ -39,7 +39,11 @@ RULE = ("EXHAUSTIVE part: every string over {a, b, U+FF25 (width 2), U+0300 (wid
         "handed to Coq with the case. Observation: per-character cells of the result, numbers, exception class. "
         "non-trivial = at least one wide or zero-width character and at least one slice query; distinct = distinct "
         "(runs, queries)")
+GENERATORS = ("gen/gen_pure.py",)
+PURE_HELPERS = ('interval_overlap',)
 TRUSTED = [
+    "translator gen/gen_pure.py (dumps the Python AST of interval_overlap node by node into coq/Gen/Pure.v) and the reference "
+    "semantics of that Python subset coq/Spec/PyMini.v, itself run against CPython on enumerated arguments in every check",
     "Coq 8.16.1 kernel incl. vm_compute (no native_compute); Print Assumptions: closed under the global context",
     "reference notions coq/Spec/Columns.v (column expansion of cells, cut of orphaned halves, firstn/skipn)",
     "cwcwidth (C library): its wcwidth values are data of each case; wcswidth(s, n) modelled as the sum over the first n "
